@@ -201,13 +201,13 @@ impl<D: ChunkData, E> Writer<D, E> {
     //@body
     //@end
 
-    //@fn src/chunker.rs :: impl Writer :: fn flush_helper add=log props=C08,C10,C11 implicit=C08 rules=R4,R6,STD
+    //@fn src/chunker.rs :: impl Writer :: fn flush_helper add=log props=C08,C09,C10,C11 implicit=C08 rules=R4,R6,STD
     fn flush_helper(&mut self, dropping: bool, log: &mut Ghost<Seq<u64>>) -> (r: Result<(), ()>)
         requires old(self).wf_full_ok(), old(self).fits(0),
         ensures
             /*@C08,C10,C11 #fh_wf*/ (!dropping ==> final(self).wf_full_ok()) && ((old(self).shared.is_ok() && !dropping) ==> final(self).wf()) && final(self).cap == old(self).cap && final(self).shared.wf(),
             /*@C08 #fh_noop_when_empty*/ (old(self).shared.is_ok() && old(self).buf@.len() == 0 && !dropping) ==> (r.is_ok() && *final(self) == *old(self) && final(log)@ == old(log)@),
-            /*@C08 #fh_publishes*/ (old(self).shared.is_ok() && !(old(self).buf@.len() == 0 && !dropping)) ==> (
+            /*@C08,C09 #fh_publishes*/ (old(self).shared.is_ok() && !(old(self).buf@.len() == 0 && !dropping)) ==> (
                 r.is_ok() && final(self).shared.is_ok() && final(self).buf@.len() == 0
                 && final(self).shared.queue() =~= (if old(self).buf@.len() > 0 { old(self).shared.queue().push(old(self).buf) } else { old(self).shared.queue() })
                 && final(self).shared.wdropped() == dropping),
@@ -221,12 +221,12 @@ impl<D: ChunkData, E> Writer<D, E> {
     //@ before "*ready_bytes += full_buf.len();": proof { lemma_push(ready@, full_buf); }
     //@end
 
-    //@fn src/chunker.rs :: impl Write for Writer :: fn flush add=log props=C08,C10,C11 implicit=C08 rules=R6,R7,STD
+    //@fn src/chunker.rs :: impl Write for Writer :: fn flush add=log props=C08,C09,C10,C11 implicit=C08 rules=R6,R7,STD
     fn flush(&mut self, log: &mut Ghost<Seq<u64>>) -> (r: io::Result<()>)
         requires old(self).wf_full_ok(), old(self).fits(0),
         ensures
             /*@C08,C11 #flush_wf*/ final(self).wf_full_ok() && (old(self).shared.is_ok() ==> final(self).wf()) && final(self).cap == old(self).cap,
-            /*@C08 #flush_makes_available*/ old(self).shared.is_ok() ==> (r.is_ok() && final(self).buf@.len() == 0 && final(self).shared.is_ok()
+            /*@C08,C09 #flush_makes_available*/ old(self).shared.is_ok() ==> (r.is_ok() && final(self).buf@.len() == 0 && final(self).shared.is_ok()
                 && flat(final(self).shared.queue()) =~= flat(old(self).shared.queue()) + old(self).buf@
                 && final(self).shared.wdropped() == old(self).shared.wdropped()),
             /*@C10 #flush_wakes*/ (old(self).shared.is_ok() && old(self).buf@.len() > 0) ==> (final(self).shared.waker.is_none() && final(log)@ == log_after(old(log)@, old(self).shared.waker_id())),
@@ -236,24 +236,24 @@ impl<D: ChunkData, E> Writer<D, E> {
     //@ at_start: proof { if old(self).buf@.len() > 0 { lemma_push(old(self).shared.queue(), old(self).buf); } }
     //@end
 
-    //@fn src/chunker.rs :: impl Write for Writer :: fn write add=log props=C08,C10,C11 implicit=C08 rules=R5,R6,R18,STD
+    //@fn src/chunker.rs :: impl Write for Writer :: fn write add=log props=C08,C09,C10,C11 implicit=C08 rules=R5,R6,R18,STD
     fn write(&mut self, buf: &[u8], log: &mut Ghost<Seq<u64>>) -> (r: io::Result<usize>)
         requires old(self).wf(), old(self).fits(buf@.len()),
         ensures
             /*@C08,C11 #write_wf*/ final(self).wf_full_ok() && (r.is_ok() ==> final(self).wf()) && final(self).cap == old(self).cap,
-            /*@C08 #write_accepts_prefix*/ r matches Ok(k) ==> (k <= buf@.len()
+            /*@C08,C09 #write_accepts_prefix*/ r matches Ok(k) ==> (k <= buf@.len()
                 && flat(final(self).shared.queue()) + final(self).buf@ =~= flat(old(self).shared.queue()) + old(self).buf@ + buf@.subrange(0, k as int)),
-            /*@C08 #write_progress*/ r matches Ok(k) ==> (buf@.len() > 0 ==> k > 0),
-            /*@C08 #write_live_never_fails*/ old(self).shared.is_ok() ==> r.is_ok(),
+            /*@C08,C09 #write_progress*/ r matches Ok(k) ==> (buf@.len() > 0 ==> k > 0),
+            /*@C08,C09 #write_live_never_fails*/ old(self).shared.is_ok() ==> r.is_ok(),
             /*@C11 #write_error_when_chunk_completes_and_reader_gone*/ (!old(self).shared.is_ok() && cap_of(&old(self).buf) != 0 && old(self).buf@.len() + buf@.len() >= cap_of(&old(self).buf)) ==> r.is_err(),
     //@body
     //@end
 
-    //@fn src/chunker.rs :: impl Drop for Writer :: fn drop add=log props=C08,C10 implicit=C08 rules=R6,STD
+    //@fn src/chunker.rs :: impl Drop for Writer :: fn drop add=log props=C08,C09,C10 implicit=C08 rules=R6,STD
     fn drop(&mut self, log: &mut Ghost<Seq<u64>>)
         requires old(self).wf_full_ok(), old(self).fits(0),
         ensures
-            /*@C08 #drop_flushes_and_marks_end*/ old(self).shared.is_ok() ==> (final(self).shared.is_ok() && final(self).shared.wdropped()
+            /*@C08,C09 #drop_flushes_and_marks_end*/ old(self).shared.is_ok() ==> (final(self).shared.is_ok() && final(self).shared.wdropped()
                 && flat(final(self).shared.queue()) =~= flat(old(self).shared.queue()) + old(self).buf@),
             /*@C10 #drop_wakes*/ old(self).shared.is_ok() ==> (final(self).shared.waker.is_none() && final(log)@ == log_after(old(log)@, old(self).shared.waker_id())),
             /*@C10 #drop_prod_rel*/ prod_step(old(self).shared, final(self).shared, old(log)@, final(log)@),
@@ -271,7 +271,7 @@ impl<D: ChunkData, E> Writer<D, E> {
 pub struct Fifo<E> { pub accepted: Seq<u8>, pub delivered: Seq<u8>, pub sh: Shared<E>, pub wbuf: Seq<u8> }
 spec fn fifo_inv<E>(s: Fifo<E>) -> bool { s.sh.is_ok() ==> s.delivered + flat(s.sh.queue()) + s.wbuf =~= s.accepted }
 
-//@lemma props=C08 lemma_fifo
+//@lemma props=C08,C09 lemma_fifo
 /// Each operation, as specified by its contract, preserves `delivered ++ queued ++ buffered == accepted`; hence for
 /// every history (any interleaving of critical sections) the consumer sees exactly the accepted bytes, once, in order.
 proof fn lemma_fifo_write<E>(s: Fifo<E>, t: Fifo<E>, data: Seq<u8>, k: int)
@@ -279,7 +279,7 @@ proof fn lemma_fifo_write<E>(s: Fifo<E>, t: Fifo<E>, data: Seq<u8>, k: int)
         // Writer::write #write_accepts_prefix
         flat(t.sh.queue()) + t.wbuf =~= flat(s.sh.queue()) + s.wbuf + data.subrange(0, k),
         t.accepted == s.accepted + data.subrange(0, k), t.delivered == s.delivered,
-    ensures /*@C08 #fifo_write*/ fifo_inv(t),
+    ensures /*@C08,C09 #fifo_write*/ fifo_inv(t),
 {
     assert(t.delivered + flat(t.sh.queue()) + t.wbuf =~= t.delivered + (flat(t.sh.queue()) + t.wbuf));
     assert(s.delivered + flat(s.sh.queue()) + s.wbuf + data.subrange(0, k) =~= s.delivered + (flat(s.sh.queue()) + s.wbuf + data.subrange(0, k)));
@@ -289,8 +289,8 @@ proof fn lemma_fifo_flush<E>(s: Fifo<E>, t: Fifo<E>)
         // Writer::flush #flush_makes_available / Writer::drop #drop_flushes_and_marks_end
         flat(t.sh.queue()) =~= flat(s.sh.queue()) + s.wbuf, t.wbuf.len() == 0,
         t.accepted == s.accepted, t.delivered == s.delivered,
-    ensures /*@C08 #fifo_flush*/ fifo_inv(t),
-            /*@C08 #flushed_bytes_are_queued*/ t.delivered + flat(t.sh.queue()) =~= t.accepted,
+    ensures /*@C08,C09 #fifo_flush*/ fifo_inv(t),
+            /*@C08,C09 #flushed_bytes_are_queued*/ t.delivered + flat(t.sh.queue()) =~= t.accepted,
 {
     assert(t.delivered + flat(t.sh.queue()) + t.wbuf =~= t.delivered + flat(t.sh.queue()));
     assert(s.delivered + flat(s.sh.queue()) + s.wbuf =~= s.delivered + (flat(s.sh.queue()) + s.wbuf));
@@ -300,8 +300,8 @@ proof fn lemma_fifo_poll<E>(s: Fifo<E>, t: Fifo<E>, d: Seq<u8>)
         // Reader::poll_next #poll_cases, data case
         d == s.sh.queue()[0]@, t.sh.is_ok() ==> t.sh.queue() =~= s.sh.queue().subrange(1, s.sh.queue().len() as int),
         t.delivered == s.delivered + d, t.accepted == s.accepted, t.wbuf == s.wbuf,
-    ensures /*@C08 #fifo_poll*/ fifo_inv(t),
-            /*@C08 #fifo_poll_prefix*/ t.delivered + flat(s.sh.queue().subrange(1, s.sh.queue().len() as int)) + t.wbuf =~= t.accepted,
+    ensures /*@C08,C09 #fifo_poll*/ fifo_inv(t),
+            /*@C08,C09 #fifo_poll_prefix*/ t.delivered + flat(s.sh.queue().subrange(1, s.sh.queue().len() as int)) + t.wbuf =~= t.accepted,
 {
     lemma_pop_front(s.sh.queue());
     let rest = flat(s.sh.queue().subrange(1, s.sh.queue().len() as int));
@@ -309,7 +309,7 @@ proof fn lemma_fifo_poll<E>(s: Fifo<E>, t: Fifo<E>, d: Seq<u8>)
 }
 proof fn lemma_fifo_end<E>(s: Fifo<E>)
     requires fifo_inv(s), s.sh.is_ok(), s.sh.queue().len() == 0, s.wbuf.len() == 0,
-    ensures /*@C08 #clean_end_means_all_delivered*/ s.delivered =~= s.accepted,
+    ensures /*@C08,C09 #clean_end_means_all_delivered*/ s.delivered =~= s.accepted,
 {
     assert(flat(s.sh.queue()) =~= Seq::<u8>::empty());
 }
